@@ -39,6 +39,9 @@ from sim.observe import piano_roll, timesig_in_force, key_in_force, function_in_
 PPQN = 24
 _REAL_OPEN = builtins.open
 _REAL_IO_OPEN = io.open
+_REAL_REPLACE = os.replace
+_REAL_RENAME = os.rename
+_REAL_FSYNC = os.fsync
 _REAL_FILEIO = io.FileIO
 _SCRATCH_PARENT = "/dev/shm" if os.path.isdir("/dev/shm") and os.access("/dev/shm", os.W_OK) else tempfile.gettempdir()
 
@@ -283,12 +286,41 @@ class SimDisk:
             return io.BufferedWriter(raw, buffer_size=size)
         return io.BufferedReader(raw, buffer_size=size)
 
+    def _inside(self, p):
+        try:
+            p = os.fspath(p)
+        except TypeError:
+            return False
+        if isinstance(p, bytes):
+            p = os.fsdecode(p)
+        return isinstance(p, str) and os.path.abspath(p).startswith(self.root + os.sep)
+
+    def _rename(self, real, src, dst, *a, **kw):
+        # the step an atomic save (write a temporary file, then rename it over the target) can fail at; the pinned tree has
+        # no such call, so this seam only counts when a change introduces one
+        if self._inside(src) or self._inside(dst):
+            self.stats["reach_io/rename_within_operation"] += 1
+            if Plan(self.next_plan).kind == "rename_error":
+                self.fired("rename_error")
+                raise OSError(errno.EIO, "simulated failure of rename()", os.fspath(dst))
+        return real(src, dst, *a, **kw)
+
+    def _fsync(self, fd):
+        self.stats["reach_io/fsync_within_operation"] += 1
+        if Plan(self.next_plan).kind == "fsync_error":
+            self.fired("fsync_error")
+            raise OSError(errno.EIO, "simulated failure of fsync()")
+        return _REAL_FSYNC(fd)
+
     def __enter__(self):
         self._depth += 1
         if self._depth == 1:
             self.opened_in_op = 0
             builtins.open = self.open
             io.open = self.open
+            os.replace = lambda src, dst, *a, **kw: self._rename(_REAL_REPLACE, src, dst, *a, **kw)
+            os.rename = lambda src, dst, *a, **kw: self._rename(_REAL_RENAME, src, dst, *a, **kw)
+            os.fsync = self._fsync
         return self
 
     def __exit__(self, *exc):
@@ -296,6 +328,9 @@ class SimDisk:
         if self._depth == 0:
             builtins.open = _REAL_OPEN
             io.open = _REAL_IO_OPEN
+            os.replace = _REAL_REPLACE
+            os.rename = _REAL_RENAME
+            os.fsync = _REAL_FSYNC
             self.next_plan = None
         return False
 
@@ -552,10 +587,10 @@ class DiskWorld:
             exc = e
             _release_frames(e)
         fired = set(self.disk.fired_now)
-        hard = {f for f in fired if f in ("write_enospc", "write_eio", "open_error")}
+        hard = {f for f in fired if f in ("write_enospc", "write_eio", "open_error", "rename_error", "fsync_error")}
         self.abstract.append(zlib.crc32(f"save|{plan.get('kind', 'none')}|{sorted(fired)}|{exc is None}".encode()))
         self.faults_fired += len(fired)
-        if plan.get("kind", "none") in ("enospc", "eio", "open_error") and not hard:
+        if plan.get("kind", "none") in ("enospc", "eio", "open_error", "rename_error", "fsync_error") and not hard:
             self.stats[f"fault_not_fired/write_{plan['kind']}"] += 1
         if exc is not None:
             if not hard:
@@ -758,6 +793,9 @@ def gen_plan(rng, direction, size_hint):
                 "pattern": rng.randrange(1, 1 << 20)}
     if rng.random() < 0.08:
         return {"kind": "open_error", "buf": buf, "persist": rng.random() < 0.6}
+    if direction == "w" and rng.random() < 0.05:
+        # seams without a call site in the pinned tree (configured, never fired there): rename / fsync of an atomic save
+        return {"kind": rng.choice(["rename_error", "fsync_error"]), "buf": buf, "persist": True}
     at = rng.randrange(0, max(1, size_hint)) if rng.random() < 0.85 else rng.randrange(0, size_hint * 2 + 50)
     kind = "eio" if direction == "r" else rng.choice(["enospc", "eio"])
     return {"kind": kind, "at": at, "buf": buf, "also_short": rng.random() < 0.3, "pattern": rng.randrange(1, 1 << 20),
